@@ -67,7 +67,7 @@ fn check_against_spec(n_max: usize, want_odd: bool) {
 // C05: every conforming ASCIIHex text with an even number of digits (white space anywhere, EOD anywhere, garbage
 // after EOD) decodes to exactly the bytes the standard prescribes.
 #[kani::proof] #[kani::unwind(8)]
-fn decode_hex_iso_even_le4() { check_against_spec(4, false); }
+fn decode_hex_iso_even_le3() { check_against_spec(3, false); }
 
 // C05 (finding on the pinned tree): an odd number of digits => the last byte has low nibble 0.
 #[kani::proof] #[kani::unwind(8)]
@@ -100,30 +100,27 @@ fn decode_hex_ws_eod_shape6() {
     std::mem::forget(r);
 }
 
-// C16: decode_hex(encode_hex(x)) == Ok(x) for every x of at most 3 bytes (all byte values); the encoder emits exactly
+// C16: decode_hex(encode_hex(x)) == Ok(x) for every x of exactly N bytes (all byte values); the encoder emits exactly
 // two lower-case hexadecimal digits per byte, high nibble first (checked through the independent `hexval`).
-fn roundtrip(n_max: usize) {
-    let x: [u8; 3] = kani::any();
-    let n: usize = kani::any();
-    kani::assume(n <= n_max);
-    let e = encode_hex(&x[..n]);
-    assert!(e.len() == 2 * n);
+// The length is concrete per harness (N = 0, 1, 2; 3 in tier thorough): a symbolic length makes `Vec::with_capacity`
+// symbolic and CBMC runs out of memory (measured: > 48 GB).
+fn roundtrip<const N: usize>() {
+    let x: [u8; N] = kani::any();
+    let e = encode_hex(&x);
+    assert!(e.len() == 2 * N);
     let mut k = 0;
-    while k < 3 {
-        if k < n {
-            assert!(hexval(e[2 * k]) == Some(x[k] >> 4));
-            assert!(hexval(e[2 * k + 1]) == Some(x[k] & 15));
-            assert!(!(e[2 * k] >= b'A' && e[2 * k] <= b'F') && !(e[2 * k + 1] >= b'A' && e[2 * k + 1] <= b'F'));
-        }
+    while k < N {
+        assert!(hexval(e[2 * k]) == Some(x[k] >> 4));
+        assert!(hexval(e[2 * k + 1]) == Some(x[k] & 15));
+        assert!(!(e[2 * k] >= b'A' && e[2 * k] <= b'F') && !(e[2 * k + 1] >= b'A' && e[2 * k + 1] <= b'F'));
         k += 1;
     }
     let r = decode_hex(&e);
-    kani::cover!(n == n_max);
     match &r {
         Ok(v) => {
-            assert!(v.len() == n);
+            assert!(v.len() == N);
             let mut k = 0;
-            while k < 3 { if k < n { assert!(v[k] == x[k]); } k += 1; }
+            while k < N { assert!(v[k] == x[k]); k += 1; }
         }
         Err(_) => { assert!(false); }
     }
@@ -131,6 +128,10 @@ fn roundtrip(n_max: usize) {
     std::mem::forget(e);
 }
 #[kani::proof] #[kani::unwind(8)]
-fn hex_roundtrip_le2() { roundtrip(2); }
+fn hex_roundtrip_n0() { roundtrip::<0>(); }
+#[kani::proof] #[kani::unwind(8)]
+fn hex_roundtrip_n1() { roundtrip::<1>(); }
+#[kani::proof] #[kani::unwind(8)]
+fn hex_roundtrip_n2() { roundtrip::<2>(); }
 #[kani::proof] #[kani::unwind(9)]
-fn hex_roundtrip_le3() { roundtrip(3); }
+fn hex_roundtrip_n3() { roundtrip::<3>(); }
